@@ -402,8 +402,12 @@ class SingleFaults(Family):
         for p in range(len(a) + 1):
             for c in list(CH) + ['1', 'b', 'B', ' ', 'Q']:
                 yield ('ins', shard, p, c)
-        for c in list(CH) + ['1', ' ']:
+        for c in list(CH) + ['1', ' ', '\n', '\r', '\r\n', '\t', '\x00', '\x7f', '\x0b', '\x0c', '\x1c', '\x85', '\u2028']:
             yield ('ext', shard, 0, c)
+            if not c.isalnum():
+                # control / white-space characters (what a line reader leaves behind) in front, and after the upper-case form
+                yield ('pre', shard, 0, c)
+                yield ('extupper', shard, 0, c)
         for k in ('upper', 'hrp_upper', 'data_upper', 'alternate', 'first_upper', 'last_upper'):
             yield ('case', shard, 0, k)
 
@@ -427,6 +431,10 @@ class SingleFaults(Family):
             s = a[:p] + c + a[p:]
         elif kind == 'ext':
             s = a + c
+        elif kind == 'pre':
+            s = c + a
+        elif kind == 'extupper':
+            s = a.upper() + c
         elif kind == 'caseflip':
             s = a[:p] + a[p].upper() + a[p + 1:]
             if s == a:
